@@ -496,11 +496,21 @@ def dep_units(tier):
         ops = ('exchange', 'exchange-chained', 'deactivate', 'release') \
             if side == 'initiator' else ('exchange', 'exchange-chained',
                                          'rtox', 'deactivate')
+        # second frame: silence, or one of each kind of data exchange PDU
+        # (information with / without more-information, ACK, NACK, attention,
+        # timeout extension; packet number 0 / 1; with / without the DID
+        # bit) with no, one or two octets behind the PFB - so that every
+        # crafted first frame is also followed by a well-formed or a
+        # truncated PDU of every kind, and vice versa
+        code = b'\xd5\x07' if side == 'initiator' else b'\xd4\x06'
         seconds = [None]
+        for pfb in (0x00, 0x01, 0x10, 0x11, 0x40, 0x41, 0x50, 0x80, 0x90):
+            for d in (0, 0x04):
+                for t in ((b'', b'\x01', b'\x01\x02') if tier == 'thorough'
+                          else (b'', b'\x01')):
+                    seconds.append(code + bytes([pfb | d]) + t)
         if tier == 'thorough':
             seconds += [f for k, f in frames[::97]]
-        else:
-            seconds += [f for k, f in frames[::400]]
         for brty in ('106A', '212F'):
             for did in (None, 1):
                 for op in ops:
